@@ -12,24 +12,24 @@ namespace Dns.Mdns
 @[simp] theorem Filter.matches_auth (f : Filter) (now : Nat) :
     f.matches .auth now = f.authoritative := rfl
 
-@[simp] theorem Filter.matches_cached (f : Filter) (e now : Nat) :
-    f.matches (.cached e) now = (f.cached && decide (now < e)) := rfl
+@[simp] theorem Filter.matches_cached (f : Filter) (e r now : Nat) :
+    f.matches (.cached e r) now = (f.cached && decide (now < e)) := rfl
 
 theorem Filter.auth_matches {sub : Bool} {kind : Kind} {now : Nat} :
     (Filter.auth sub).matches kind now = true ↔ kind = .auth := by
   cases kind <;> simp [Filter.auth]
 
 theorem Filter.cachedOnly_matches {kind : Kind} {now : Nat} :
-    Filter.cachedOnly.matches kind now = true ↔ ∃ e, kind = .cached e ∧ now < e := by
+    Filter.cachedOnly.matches kind now = true ↔ ∃ e r, kind = .cached e r ∧ now < e := by
   cases kind <;> simp [Filter.cachedOnly]
 
 theorem Filter.all_matches {kind : Kind} {now : Nat} :
-    Filter.all.matches kind now = true ↔ kind = .auth ∨ ∃ e, kind = .cached e ∧ now < e := by
+    Filter.all.matches kind now = true ↔ kind = .auth ∨ ∃ e r, kind = .cached e r ∧ now < e := by
   cases kind <;> simp [Filter.all]
 
 /-- no filter lets an expired cache entry through, at the expiry instant or ever after -/
-theorem Filter.matches_expired (f : Filter) {e now : Nat} (h : e ≤ now) :
-    f.matches (.cached e) now = false := by
+theorem Filter.matches_expired (f : Filter) {e r now : Nat} (h : e ≤ now) :
+    f.matches (.cached e r) now = false := by
   simp only [Filter.matches_cached, Bool.and_eq_false_iff, decide_eq_false_iff_not]
   exact .inr (by omega)
 
@@ -143,7 +143,8 @@ def absStep (m : RR → Option Kind) : Op → RR → Option Kind
   | .addCached r now => fun x =>
       if rrEq x r = true then
         (if m r = some .auth then some .auth
-         else some (.cached (now + 1000 * (if r.flush = true then 1 else r.ttl))))
+         else some (.cached (now + 1000 * (if r.flush = true then 1 else r.ttl))
+                (now + 1000 * refreshOffsetSecs (if r.flush = true then 1 else r.ttl))))
       else m x
   | .remove r => fun x => if rrEq x r = true then none else m x
   | .clear => fun _ => none
